@@ -22,6 +22,33 @@ G_FORMS = [
 S_FORMS = [r"%s\(p1, p2\)" % re.escape(SAT_ADD), r"%s\(p2, p1\)" % re.escape(SAT_ADD)]
 
 
+def _is_max_fn(hb):
+    """`fn max(x, y) { if x > y { x } else { y } }` (any of the four comparison spellings)"""
+    from guards import guards_at
+    if hb.arg_count != 2 or any(t for _, t in hb.calls()):
+        return False
+    got = {}
+    for (bb, si, x) in hb.defs.get(0, []):
+        if si == "term":
+            return False
+        e = strip_refs(hb.origin_rvalue(x))
+        if e[0] != "param":
+            return False
+        conds = []
+        for g in guards_at(hb, bb):
+            if g[0] == "cmp2":
+                a, c = strip_refs(g[2]), strip_refs(g[3])
+                if a[0] == "param" and c[0] == "param":
+                    conds.append((g[1], a[1], c[1]))
+        got[e[1]] = conds
+    if set(got) != {1, 2}:
+        return False
+    # returning x requires x >= y on that edge; returning y requires y >= x
+    def ge(conds, me, other):
+        return any((op in ("Gt", "Ge") and a == me and c == other) or (op in ("Lt", "Le") and a == other and c == me) for op, a, c in conds)
+    return ge(got[1], 1, 2) and ge(got[2], 2, 1)
+
+
 def rule_formula(ctx, rule="C12-formula"):
     F = ctx.F
     b = F.bodies.get(AG)
@@ -31,10 +58,12 @@ def rule_formula(ctx, rule="C12-formula"):
     ctx.ob(rule, AG, "loop-free", not any(b.reachable(s) and bb in b.reachable(s) for bb in range(b.n) for s, _ in b.succ(bb)), how="loop-free body", detail="amortized_growth contains a loop")
     d = describe(b, b.origin_local(0))
     ok = False
-    for g in G_FORMS:
-        for s in S_FORMS:
-            if re.match(r"^%s\(%s, %s\)$" % (re.escape(MAX), g, s), d) or re.match(r"^%s\(%s, %s\)$" % (re.escape(MAX), s, g), d):
-                ok = True
+    maxes = [MAX] + [p for p in F.bodies if p.rsplit("::", 1)[-1] == "max" and _is_max_fn(F.bodies[p])]   # std's max, or a local `const fn max` that is one
+    for mx in maxes:
+        for g in G_FORMS:
+            for s in S_FORMS:
+                if re.match(r"^%s\(%s, %s\)$" % (re.escape(mx), g, s), d) or re.match(r"^%s\(%s, %s\)$" % (re.escape(mx), s, g), d):
+                    ok = True
     ctx.ob(rule, AG, "normal-form", ok, how="amortized_growth(len, add) = max(len + len/2, len + add), saturating: %s" % d,
            detail="growth rule is `%s`: not max(len*3/2, len+additional) — the property pins the new capacity to >= len + len/2 and <= max(that, required)" % d)
     # overflow-checked multiplications would panic instead of saturating: no Assert terminators
@@ -90,6 +119,15 @@ def rule_sites(ctx, rule="C12-sites"):
                 ctx.ob(rule, w.path, "allocates-rule-capacity", d == "ok(repr::heap_buffer::internal::Capacity::new(%s(core::str::<impl str>::len(p1), p2)))" % AG, how="allocate_ptr(Capacity::new(amortized_growth(len(text), additional))?)",
                        detail="with_additional allocates capacity %s" % d)
     # (4) appends reach growth only through reserve
+    rule_growth_via_reserve(ctx, rule)
+    rule_reserve_amount(ctx, rule)
+
+
+def rule_growth_via_reserve(ctx, rule="C12-sites"):
+    """push_str / insert_str allocate only through Repr::reserve (which keeps a buffer that already has
+    the room, and grows by the rule otherwise): any other allocating path - rebuilding the string
+    from the text, an exact-fit constructor - reallocates within capacity or breaks the growth rule"""
+    F, cg = ctx.F, ctx.cg
     for m in ("repr::Repr::push_str", "repr::Repr::insert_str"):
         b = F.bodies.get(m)
         if not b:
@@ -97,7 +135,6 @@ def rule_sites(ctx, rule="C12-sites"):
         seen, leaves, users, parent = cg.reach([m], follow=lambda e: e.target != "repr::Repr::reserve")
         heap = [s for s in seen if s.startswith("repr::heap_buffer::HeapBuffer::") and cg.may_allocate(s)]
         ctx.ob(rule, m, "growth-via-reserve", not heap, how="allocation reachable only through Repr::reserve", detail="%s reaches %s around reserve" % (m, heap[:3]))
-    rule_reserve_amount(ctx, rule)
 
 
 def rule_reserve_amount(ctx, rule="C12-sites"):
